@@ -218,12 +218,15 @@ Section Main.
       { pose proof Hs as Hs'. cbn [tb_shp_stat] in Hs'. apply andb_true_iff in Hs'. destruct Hs' as [Hs' _].
         apply andb_true_iff in Hs'. destruct Hs' as [Hs1 Hs2]. apply Nat.eqb_eq in Hs1. apply Nat.leb_le in Hs2.
         rewrite combine_length. lia. }
-      destruct (local_piece W nm flv es (combine ns ls) c0 c0 b RNone st IHe ltac:(assumption) Hse Hn C2 Hlc) as [P1 P2]; auto.
-      + intros [x y] Hin. apply in_combine_r in Hin. destruct (chain_ids W _ _ _ C1 y Hin) as [A1 [_ A3]]. auto.
+      destruct (local_marks_chain W ns ls es l c0 b C2) as [c1 [c2 [Lc1 [Lc2 [C3 Hil]]]]].
+      pose proof (chain_le W _ _ _ C3) as L3.
+      destruct (local_piece W nm flv es (combine ns ls) c0 c1 c2 RNone (init_loc ns ls es l) st IHe ltac:(assumption) Hse Hn C3 Hlc)
+        as [P1 P2]; auto.
+      + intros [x y] Hin. apply in_combine_r in Hin. destruct (chain_ids W _ _ _ C1 y Hin) as [A1 [_ A3]].
+        split; [exact A1|]. cbn [snd]. clear - A3 Lc1. lia.
       + exact I.
-      + apply Z.le_refl.
-      + exact (G_sub W _ _ _ _ _ Hg L1 (Z.le_refl b)).
-      + split; [exact P1|]. exact (EvoS_widen W _ _ _ _ _ _ P2 L1 (Z.le_refl b)).
+      + apply (G_sub W _ _ _ _ _ Hg); [clear - L1 Lc1; lia|exact Lc2].
+      + split; [exact P1|]. apply (EvoS_widen W _ _ _ _ _ _ P2); [exact L1|exact Lc2].
     - (* SLocalFunc *) intros n nl f l [_ IHf] Hf Hs Hn flv slv a b Hch.
       cbn [frag_stat nfs_stat tb_shp_stat] in Hf, Hn, Hs. apply andb_true_iff in Hf. destruct Hf as [_ Hff].
       destruct f; try discriminate Hff.
